@@ -236,6 +236,11 @@ Proof. vm_compute. reflexivity. Qed.
 Theorem recursion_test_is_exact : gen_recursion_test_exact = true.
 Proof. vm_compute. reflexivity. Qed.
 
+(* stage A obligation: the registries of Schemas are only ever extended through copies, so a failed attempt of the fix-point loops cannot leave
+   a registration behind (RetryThm.failed_attempt_no_trace is the model's side of this) *)
+Theorem registries_are_persistent : gen_registries_persistent = true.
+Proof. vm_compute. reflexivity. Qed.
+
 Theorem all_loops_sorted_if_fixed : known_fixed gen_loops = true -> forallb loop_ok gen_loops = true.
 Proof. apply ok_or_known_fixed. exact all_loops_sorted_except_known. Qed.
 
